@@ -22,6 +22,7 @@
 // phase (arguments reduced to k in {1, all}), deduplicating by a hash of the
 // engine registers.
 #include "common/tls_session.hpp"
+#include "common/tls_hello.hpp"
 #include <unordered_set>
 
 using namespace vf;
@@ -242,6 +243,37 @@ static void probe_known()
 		// regression for fixed finding F5 (the invariant "state != 0 while open" is asserted by every call above)
 		VF_CHECK(!(sr && cr && !P.e[0]->closed() && P.e[0]->state() == 0),
 			"half-duplex client: renegotiate() accepted while the server's HelloRequest is partly received: state 0 forever (nothing offered, not closed)");
+	}
+	// F46: a server that has decided on a fatal alert (ClientHello without a usable suite) but has not sent it yet
+	// receives the client's close_notify (full-duplex buffers), or its application calls close(): bearssl_ssl.h
+	// promises last_error = BR_ERR_SEND_FATAL_ALERT + alert once the alert has been sent
+	for (int variant = 0; variant < 2; variant++) {
+		Profile sp;
+		sp.layout = L_SPLIT;
+		BearServer srv(sp);
+		VF_CHECK(srv.reset(), "probe: reset");
+		ClientHelloSpec ch;
+		ch.suites = { 0x0004 };     // RC4_128_MD5: not supported
+		Bytes in = ch.records();
+		size_t off = 0;
+		while (off < in.size() && srv.wire_in_room()) { size_t k = std::min(srv.wire_in_room(), in.size() - off); srv.wire_in(in.data() + off, k); off += k; }
+		const uint8_t *p;
+		VF_CHECK(!srv.closed() && srv.wire_out_peek(&p) > 0, "probe: no alert pending after an unusable ClientHello (state %#x error %d)", srv.state(), srv.error());
+		if (variant == 0) {
+			static const uint8_t CN[] = { 0x15, 0x03, 0x01, 0x00, 0x02, 0x01, 0x00 };
+			if (srv.wire_in_room() >= sizeof CN) srv.wire_in(CN, sizeof CN);
+		} else srv.close();
+		Bytes out;
+		for (int g = 0; g < 100; g++) { size_t n = srv.wire_out_peek(&p); if (!n) break; out.insert(out.end(), p, p + n); srv.wire_out_ack(n); }
+		bool sent_fatal_40 = out.size() >= 7 && out[0] == 21 && out[5] == 2 && out[6] == 40;
+		VF_CHECK(sent_fatal_40, "probe: the server did not send handshake_failure (%s)", hex(out.data(), out.size(), 16).c_str());
+		if (srv.error() != BR_ERR_SEND_FATAL_ALERT + 40) {
+			std::string what = fmt("a server whose fatal alert (handshake_failure, no usable suite) is still waiting to be sent %s: it sends the alert, then a close_notify, and %s with last_error %d instead of BR_ERR_SEND_FATAL_ALERT+40 = 552 "
+				"(fail-alert waits in wait-co, which diverts into do-close and never comes back to store the error)", variant == 0 ? "receives the client's close_notify" : "has br_ssl_engine_close() called by its application",
+				srv.closed() ? "ends closed" : "stays open waiting for an answer", srv.error());
+			if (known("pending-fatal-alert-forgotten-on-close")) stats.known_finding("pending-fatal-alert-forgotten-on-close", what);
+			else failf("%s", what.c_str());
+		}
 	}
 }
 
